@@ -19,6 +19,10 @@ type c01Case struct {
 	Entry   string `json:"entry"`
 	Channel int    `json:"channel"`
 	Code    int    `json:"code"`
+	// Pattern chooses the codes of the two channels not under test: 0 = two different bijections of
+	// the code, 1 = both zero, 2 = both equal to one other value, 3 = both equal to the code
+	// (a grey), 4 = one equal to the code, one different
+	Pattern int `json:"companion_pattern,omitempty"`
 }
 
 var c01Entries8 = []string{"From8Bit", "ColorFromNRGBA", "ColorFromRGBA", "ColorFromEncodedColor/color.RGBA", "ColorFromEncodedColor/color.NRGBA", "ColorFromEncodedColor/color.Gray", "LineariseColor/color.NRGBA"}
@@ -36,6 +40,21 @@ func c01Width(entry string) int {
 // companion codes for the two channels not under test: bijections of the code,
 // so that a swapped channel or cross-talk shows.
 func c01Others(code, max int) (int, int) {
+	return c01OthersP(code, max, 0)
+}
+
+func c01OthersP(code, max, pattern int) (int, int) {
+	switch pattern {
+	case 1:
+		return 0, 0
+	case 2:
+		v := (code*5 + 11) & max
+		return v, v
+	case 3:
+		return code, code
+	case 4:
+		return code, (code*3 + 1) & max
+	}
 	return (code*7 + 3) & max, max - code
 }
 
@@ -53,12 +72,16 @@ func pick3(ch int, a, b, c float32) float32 {
 // returns the linear value it produced for that channel. quant=true means the
 // entry point returns a 16-bit quantised linear value (LineariseColor).
 func c01Decode(s *libSpace, entry string, ch, code int) (val float64, quant bool, ok bool) {
+	return c01DecodeP(s, entry, ch, code, 0)
+}
+
+func c01DecodeP(s *libSpace, entry string, ch, code, pattern int) (val float64, quant bool, ok bool) {
 	w := c01Width(entry)
 	max := 255
 	if w == 16 {
 		max = 65535
 	}
-	o1, o2 := c01Others(code, max)
+	o1, o2 := c01OthersP(code, max, pattern)
 	var v [3]int
 	v[ch], v[(ch+1)%3], v[(ch+2)%3] = code, o1, o2
 	switch entry {
@@ -134,7 +157,7 @@ func c01Point(cs c01Case) (bad bool, kind, msg string, got float64) {
 	if w == 16 {
 		max = 65535
 	}
-	val, quant, ok := c01Decode(s, cs.Entry, cs.Channel, cs.Code)
+	val, quant, ok := c01DecodeP(s, cs.Entry, cs.Channel, cs.Code, cs.Pattern)
 	if !ok {
 		return false, "", "entry not applicable", 0
 	}
@@ -205,7 +228,7 @@ func runC01(r *core.Run) {
 		for ch := 0; ch < chans; ch++ {
 			prev := math.Inf(-1)
 			for code := 0; code < n; code++ {
-				cs := c01Case{j.s.Name, j.entry, ch, code}
+				cs := c01Case{j.s.Name, j.entry, ch, code, 0}
 				bad, kind, msg, val := c01Point(cs)
 				evals++
 				if code > 0 && code < n-1 {
@@ -230,6 +253,26 @@ func runC01(r *core.Run) {
 						fmt.Sprintf("%s %s ch%d: linearise(%d)=%v < linearise(%d)=%v", j.s.Name, j.entry, ch, code, val, code-1, prev), cs)
 				}
 				prev = val
+			}
+		}
+		// the same codes with other companion patterns (zeros, equal channels, greys): a decoder
+		// that reuses one channel's result for another shows only when codes coincide
+		if chans == 3 {
+			for pattern := 1; pattern <= 4; pattern++ {
+				for ch := 0; ch < 3; ch++ {
+					step := 1
+					if n > 256 {
+						step = 13
+					}
+					for code := (ch + pattern) % step; code < n; code += step {
+						cs := c01Case{j.s.Name, j.entry, ch, code, pattern}
+						bad, kind, msg, _ := c01Point(cs)
+						evals++
+						if bad {
+							r.Violate("point", fmt.Sprintf("%s/%s/%s/pattern%d", j.s.Name, j.entry, kind, pattern), msg+fmt.Sprintf(" (companion pattern %d)", pattern), cs)
+						}
+					}
+				}
 			}
 		}
 		r.AddEvals(evals)
@@ -258,7 +301,7 @@ func runC01(r *core.Run) {
 			if math.Float32bits(a) != math.Float32bits(b) {
 				r.Violate("8vs16", fmt.Sprintf("%s/%s", s.Name, entry),
 					fmt.Sprintf("%s: 8-bit decode of %d = %.9g but 16-bit decode of %d = %.9g", s.Name, v, a, 257*v, b),
-					c01Case{s.Name, "8vs16", 0, v})
+					c01Case{s.Name, "8vs16", 0, v, 0})
 			}
 		}
 	}
